@@ -86,6 +86,8 @@ struct Model<'a> {
     held: BTreeSet<(usize, usize)>,
     /// hold / release calls: (event index, unordered pairs)
     calls: Vec<(usize, Vec<(usize, usize)>)>,
+    /// released messages that a directly following hold caught again before they left the link
+    reheld: u64,
 }
 
 impl<'a> Model<'a> {
@@ -158,6 +160,7 @@ impl<'a> Model<'a> {
                     {
                         ms.was_held = true;
                         caught += 1;
+                        self.reheld += 1;
                         St::Held
                     } else {
                         St::Maybe
@@ -299,15 +302,15 @@ fn cycles_base(rng: &mut Rng, cfg: &mut SimCfg, n: usize, tick_ms: u64) -> Net {
         };
         let s_h = rng.range(1, run_ticks) as u32;
         let s_r = s_h + rng.range(1, 7) as u32;
-        let mut put = |rng: &mut Rng, step: u32, act: Act| {
-            if rng.chance(2, 5) && step >= 2 {
+        let mut put_at = |rng: &mut Rng, step: u32, act: Act, ctl_only: bool| {
+            if !ctl_only && rng.chance(2, 5) && step >= 2 {
                 hacts.push(HostAct { host: rng.usize(0, n - 1), at_ms: (step as u64 - 1) * tick_ms + rng.below(tick_ms), act });
             } else {
                 script.push((step, act));
             }
         };
         let (ha, hb) = sels(rng);
-        put(rng, s_h, Act::Hold(ha, hb));
+        put_at(rng, s_h, Act::Hold(ha, hb), false);
         if rng.chance(2, 5) {
             // release directly followed by a new hold of the same link, 1-3 times, with no step (Sim handle)
             // and no await or send (host code) in between: the released messages are still in flight
@@ -333,23 +336,24 @@ fn cycles_base(rng: &mut Rng, cfg: &mut SimCfg, n: usize, tick_ms: u64) -> Net {
             if rng.chance(1, 3) {
                 // as separate controller actions of one slot (Sim::links is sampled between them)
                 for act in seq {
-                    script.push((s_r, act));
+                    put_at(rng, s_r, act, true);
                 }
             } else {
-                put(rng, s_r, Act::Seq(seq));
+                put_at(rng, s_r, Act::Seq(seq), false);
             }
             if rng.chance(5, 6) {
                 let (ra, rb) = if rng.bool() { (Sel::Name(a), Sel::Name(b)) } else { sels(rng) };
-                put(rng, s_r + rng.range(1, 5) as u32, Act::Release(ra, rb));
+                let s_r2 = s_r + rng.range(1, 5) as u32;
+                put_at(rng, s_r2, Act::Release(ra, rb), false);
             }
         } else if rng.chance(5, 6) {
             let (ra, rb) = if rng.bool() { (Sel::Name(a), Sel::Name(b)) } else { sels(rng) };
-            put(rng, s_r, Act::Release(ra, rb));
+            put_at(rng, s_r, Act::Release(ra, rb), false);
         }
         if rng.chance(1, 6) {
             // repeated hold on an already held link
             let (ha, hb) = sels(rng);
-            put(rng, s_h + 1, Act::Hold(ha, hb));
+            put_at(rng, s_h + 1, Act::Hold(ha, hb), false);
         }
     }
     let fin = (run_ticks + 14) as u32;
@@ -401,8 +405,8 @@ impl Property for C08 {
     }
     fn budget(tier: Tier) -> u64 {
         match tier {
-            Tier::Quick => 30_000,
-            Tier::Thorough => 500_000,
+            Tier::Quick => 24_000,
+            Tier::Thorough => 450_000,
         }
     }
 
@@ -525,7 +529,7 @@ impl Property for C08 {
             violation = Some(Violation::new("StepError", e.clone()));
         }
         let ix = links::index(net, &tr);
-        let mut model = Model { net, evs: &tr.evs, tick, lmin: net.cfg.min_latency_us, lmax: net.cfg.max_latency_us, msgs: BTreeMap::new(), order: Vec::new(), held: BTreeSet::new(), calls: Vec::new() };
+        let mut model = Model { net, evs: &tr.evs, tick, lmin: net.cfg.min_latency_us, lmax: net.cfg.max_latency_us, msgs: BTreeMap::new(), order: Vec::new(), held: BTreeSet::new(), calls: Vec::new(), reheld: 0 };
         for (i, e) in tr.evs.iter().enumerate() {
             if let EvKind::Act(a @ (Act::Hold(..) | Act::Release(..))) = &e.kind {
                 let pairs = model.unordered_pairs(a);
@@ -846,6 +850,10 @@ impl Property for C08 {
                 }
             }
         }
+        rep.faults.add("released_message_caught_by_immediate_rehold", model.reheld);
+        if model.reheld > 0 {
+            rep.probes.inc("hold_directly_after_release_with_messages_in_flight");
+        }
         if max_held_on_a_link >= 2 {
             rep.probes.inc("two_or_more_held_on_one_link");
         }
@@ -902,7 +910,7 @@ mod tests {
             ev(5, 8, 8000, None, EvKind::Act(Act::Release(Sel::Name(1), Sel::Name(0)))),
             ev(6, 9, 8000, Some(0), EvKind::Send(m(3))), // after the release
         ];
-        let mut model = Model { net: &net, evs: &evs, tick: 1000, lmin: 3000, lmax: 3000, msgs: BTreeMap::new(), order: vec![], held: BTreeSet::new(), calls: vec![] };
+        let mut model = Model { net: &net, evs: &evs, tick: 1000, lmin: 3000, lmax: 3000, msgs: BTreeMap::new(), order: vec![], held: BTreeSet::new(), calls: vec![], reheld: 0 };
         model.on_send(0, m(0));
         model.on_send(1, m(1));
         assert_eq!(model.on_hold(2, &[(0, 1)]), 1);
@@ -933,5 +941,28 @@ mod tests {
         let rep = C08::run(&Scenario { net, manual: None, vseed: 0 }, true);
         assert!(rep.violation.is_none(), "{:?}\n{}", rep.violation, rep.log.join("\n"));
         assert!(rep.log.iter().any(|l| l.contains("ConnOk")));
+    }
+
+    /// The hold / release / hold cycle with no step in between (seeded mutant C08-m3's demo): on the real
+    /// tree the two datagrams stay in flight through the second hold and arrive after the last release.
+    #[test]
+    fn release_directly_followed_by_hold_keeps_messages_held() {
+        let cfg = SimCfg { min_latency_us: 0, max_latency_us: 0, tick_us: 1000, ..SimCfg::default() };
+        let net = Net {
+            cfg,
+            hosts: 2,
+            udp: vec![UdpBurst { from: 1, to: 0, at_ms: 2, count: 2, by_ip: false }],
+            conns: vec![],
+            hacts: vec![],
+            script: vec![(1, Act::Hold(Sel::Name(1), Sel::Name(0))), (8, Act::Seq(vec![Act::Release(Sel::Name(1), Sel::Name(0)), Act::Hold(Sel::Name(1), Sel::Name(0))])), (15, Act::Release(Sel::Name(0), Sel::Name(1)))],
+            steps: 25,
+            sample_links: true,
+        };
+        let rep = C08::run(&Scenario { net, manual: None, vseed: 0 }, true);
+        assert!(rep.violation.is_none(), "{:?}\n{}", rep.violation, rep.log.join("\n"));
+        let last_release = rep.log.iter().rposition(|l| l.contains("Act(Release")).unwrap();
+        let first_recv = rep.log.iter().position(|l| l.contains("Recv(Udp")).unwrap();
+        assert!(first_recv > last_release, "{}", rep.log.join("\n"));
+        assert_eq!(rep.log.iter().filter(|l| l.contains("Recv(Udp")).count(), 2);
     }
 }
